@@ -6,9 +6,11 @@
 //!   b <id> <parent|-1> <bitsvar 0..2> <txkind 0..2> <salt>   block with real header, nonce grinded
 //!   bad <id> <of>                                             same header as <of>, nonce FAILING PoW
 //!   endtree           -> "tree <tid> <id>:<parent>:<height>:<work>:<chainwork>:<pow> ..."
-//!   spv <sid> <full|hdr> <start_id>       SpvClient with empty HeaderCache at <start_id>
+//!   spv <sid> <full|hdr> <start_id> [shape]   SpvClient with empty HeaderCache at <start_id>; shape = how the
+//!                                             listener is composed (0 leaf, 1 (A,B), 2 ((A,B),C), 3 (A,(B,C)), 4 (dyn Deref,B),
+//!                                             5 Box<(A,B)>, 6 Arc<(&A,&B)>, 7 &((&A,&B),&C)); one log per LEAF is printed
 //!   init <sid> <full|hdr>                 init::synchronize_listeners, then SpvClient on its result
-//!   l <block_id> <height> <p1> .. <p12>   listener locator (0 = None); init scenarios only
+//!   l <block_id> <height> <p1> .. <p12> [shape]   listener locator (0 = None) and composition (shapes 0-4); init only
 //!   f <idx> <fault>                       fault at global request index <idx> of this scenario:
 //!        T | P                   transient / persistent source error
 //!        S:<y>:<dh>:<dw>         answer as for block <y>, claimed height + dh, claimed chainwork + dw
@@ -357,8 +359,10 @@ impl Rec {
 }
 impl Listen for Rec {
 	fn filtered_block_connected(&self, header: &Header, txdata: &TransactionData, height: u32) {
-		let extra = if txdata.is_empty() { "" } else { "!txdata" };
-		self.ev.lock().unwrap().push(format!("c{}@{}{}", self.tree.name(&header.block_hash()), height, extra));
+		// a full block reaches the leaves of a tuple combinator through the default `block_connected`,
+		// i.e. as `filtered_block_connected` with the block's complete transaction list
+		let kind = if txdata.is_empty() { "c" } else { "C" };
+		self.ev.lock().unwrap().push(format!("{}{}@{}", kind, self.tree.name(&header.block_hash()), height));
 	}
 	fn block_connected(&self, block: &Block, height: u32) {
 		self.ev.lock().unwrap().push(format!("C{}@{}", self.tree.name(&block.header.block_hash()), height));
@@ -368,7 +372,7 @@ impl Listen for Rec {
 		self.ev.lock().unwrap().push(format!("D{}@{}{}", self.tree.name(&fork_point.block_hash), fork_point.height, extra));
 	}
 }
-struct Fan<'a>(Vec<&'a Rec>);
+struct Fan<'a>(Vec<&'a dyn Listen>);
 impl<'a> Listen for Fan<'a> {
 	fn filtered_block_connected(&self, header: &Header, txdata: &TransactionData, height: u32) {
 		for l in self.0.iter() {
@@ -383,6 +387,45 @@ impl<'a> Listen for Fan<'a> {
 	fn blocks_disconnected(&self, fork_point: BlockLocator) {
 		for l in self.0.iter() {
 			l.blocks_disconnected(fork_point);
+		}
+	}
+}
+
+/// Composed listeners built only from the blanket impls of lightning/src/chain/mod.rs:
+/// `impl Listen for (T, U)` (T, U: Deref, Target: Listen) and `impl Listen for dyn Deref<Target = T>`.
+enum Comp {
+	S0(Arc<Rec>),
+	S1((Arc<Rec>, Arc<Rec>)),
+	S2((Box<(Arc<Rec>, Arc<Rec>)>, Arc<Rec>)),
+	S3((Arc<Rec>, Box<(Arc<Rec>, Arc<Rec>)>)),
+	S4((Box<dyn std::ops::Deref<Target = Rec>>, Arc<Rec>)),
+}
+fn shape_leaves(shape: u32) -> usize {
+	match shape {
+		0 => 1,
+		2 | 3 => 3,
+		_ => 2,
+	}
+}
+impl Comp {
+	fn new(shape: u32, tree: &Arc<Tree>) -> (Comp, Vec<Arc<Rec>>) {
+		let l: Vec<Arc<Rec>> = (0..shape_leaves(shape)).map(|_| Arc::new(Rec::new(tree.clone()))).collect();
+		let c = match shape {
+			0 => Comp::S0(l[0].clone()),
+			2 => Comp::S2((Box::new((l[0].clone(), l[1].clone())), l[2].clone())),
+			3 => Comp::S3((l[0].clone(), Box::new((l[1].clone(), l[2].clone())))),
+			4 => Comp::S4((Box::new(l[0].clone()), l[1].clone())),
+			_ => Comp::S1((l[0].clone(), l[1].clone())),
+		};
+		(c, l)
+	}
+	fn as_listen(&self) -> &dyn Listen {
+		match self {
+			Comp::S0(a) => &**a,
+			Comp::S1(t) => t,
+			Comp::S2(t) => t,
+			Comp::S3(t) => t,
+			Comp::S4(t) => t,
 		}
 	}
 }
@@ -432,6 +475,7 @@ fn run_scenario(tree: &Arc<Tree>, lines: &[String], out: &mut Vec<String>) {
 		st: Mutex::new(SrcState { best: 0, hint: true, n: 0, faults: HashMap::new(), full }),
 	};
 	let mut locs: Vec<BlockLocator> = Vec::new();
+	let mut shapes: Vec<u32> = Vec::new();
 	let mut rest: Vec<Vec<&str>> = Vec::new();
 	for l in &lines[1..] {
 		let t: Vec<&str> = l.split_whitespace().collect();
@@ -442,13 +486,14 @@ fn run_scenario(tree: &Arc<Tree>, lines: &[String], out: &mut Vec<String>) {
 			"l" => {
 				let b = tree.get(t[1].parse().unwrap());
 				let mut loc = BlockLocator::new(b.header.block_hash(), t[2].parse().unwrap());
-				for (i, p) in t[3..].iter().enumerate() {
+				for (i, p) in t[3..15.min(t.len())].iter().enumerate() {
 					let pid: u32 = p.parse().unwrap();
 					if pid != 0 && i < loc.previous_blocks.len() {
 						loc.previous_blocks[i] = Some(tree.get(pid).header.block_hash());
 					}
 				}
 				locs.push(loc);
+				shapes.push(t.get(15).and_then(|x| x.parse().ok()).unwrap_or(0));
 			},
 			_ => rest.push(t),
 		}
@@ -461,27 +506,50 @@ fn run_scenario(tree: &Arc<Tree>, lines: &[String], out: &mut Vec<String>) {
 	let nreq = || src.st.lock().unwrap().n;
 	if kind == "spv" {
 		let start: u32 = head[3].parse().unwrap();
-		let rec = Rec::new(tree.clone());
-		let poller = ChainPoller::new(&src, Network::Regtest);
-		let mut client = SpvClient::new(tree.validated(start), poller, HeaderCache::new(), &rec);
-		for t in rest.iter() {
-			if t[0] == "poll" {
-				set_best(t);
-				let r = block_on(client.poll_best_tip());
-				out.push(format!("P {} {} | {}", poll_rc(tree, r), nreq(), rec.take()));
-			}
+		let shape: u32 = head.get(4).and_then(|x| x.parse().ok()).unwrap_or(0);
+		let polls: Vec<Vec<&str>> = rest.iter().filter(|t| t[0] == "poll").cloned().collect();
+		let tip = tree.validated(start);
+		// the way the composed listener is handed to SpvClient (L: Deref, L::Target: Listen)
+		match shape {
+			5 => {
+				let l: Vec<Arc<Rec>> = (0..2).map(|_| Arc::new(Rec::new(tree.clone()))).collect();
+				drive(tree, &src, tip, Box::new((l[0].clone(), l[1].clone())), &l, &polls, out);
+			},
+			6 => {
+				let l: Vec<Arc<Rec>> = (0..2).map(|_| Arc::new(Rec::new(tree.clone()))).collect();
+				let inner = (&*l[0], &*l[1]);
+				drive(tree, &src, tip, Arc::new(inner), &l, &polls, out);
+			},
+			7 => {
+				// plain references all the way: &((&A, &B), &C)
+				let l: Vec<Arc<Rec>> = (0..3).map(|_| Arc::new(Rec::new(tree.clone()))).collect();
+				let inner = (&*l[0], &*l[1]);
+				let outer = (&inner, &*l[2]);
+				drive(tree, &src, tip, &outer, &l, &polls, out);
+			},
+			_ => {
+				let (comp, l) = Comp::new(shape, tree);
+				drive(tree, &src, tip, comp.as_listen(), &l, &polls, out);
+			},
 		}
 	} else {
-		let recs: Vec<Rec> = locs.iter().map(|_| Rec::new(tree.clone())).collect();
+		let mut comps: Vec<Comp> = Vec::new();
+		let mut leaves: Vec<Arc<Rec>> = Vec::new();
+		for sh in shapes.iter() {
+			let (c, l) = Comp::new(*sh, tree);
+			comps.push(c);
+			leaves.extend(l);
+		}
 		let mut it = rest.iter();
 		let mut state: Option<(HeaderCache, ValidatedBlockHeader)> = None;
 		let mut synced = false;
 		let mut client = None;
-		let fan = Fan(recs.iter().collect());
+		let fan = Fan(comps.iter().map(|c| c.as_listen()).collect());
 		for t in &mut it {
 			if t[0] == "sync" {
 				set_best(t);
-				let listeners: Vec<(BlockLocator, &Rec)> = locs.iter().cloned().zip(recs.iter()).collect();
+				let listeners: Vec<(BlockLocator, &dyn Listen)> =
+					locs.iter().cloned().zip(comps.iter().map(|c| c.as_listen())).collect();
 				let r = block_on(synchronize_listeners(&src, Network::Regtest, listeners));
 				let rc = match r {
 					Err(e) => err_str(e),
@@ -491,7 +559,7 @@ fn run_scenario(tree: &Arc<Tree>, lines: &[String], out: &mut Vec<String>) {
 						s
 					},
 				};
-				let logs: Vec<String> = recs.iter().map(|r| r.take()).collect();
+				let logs: Vec<String> = leaves.iter().map(|r| r.take()).collect();
 				out.push(format!("S {} {} | {}", rc, nreq(), logs.join(" | ")));
 				synced = true;
 			} else if t[0] == "poll" {
@@ -505,10 +573,31 @@ fn run_scenario(tree: &Arc<Tree>, lines: &[String], out: &mut Vec<String>) {
 				}
 				set_best(t);
 				let r = block_on(client.as_mut().unwrap().poll_best_tip());
-				let logs: Vec<String> = recs.iter().map(|r| r.take()).collect();
+				let logs: Vec<String> = leaves.iter().map(|r| r.take()).collect();
 				out.push(format!("P {} {} | {}", poll_rc(tree, r), nreq(), logs.join(" | ")));
 			}
 		}
+	}
+}
+
+fn drive<L: std::ops::Deref>(
+	tree: &Arc<Tree>, src: &Src, tip: ValidatedBlockHeader, listener: L, leaves: &[Arc<Rec>], polls: &[Vec<&str>],
+	out: &mut Vec<String>,
+) where
+	L::Target: Listen,
+{
+	let poller = ChainPoller::new(src, Network::Regtest);
+	let mut client = SpvClient::new(tip, poller, HeaderCache::new(), listener);
+	for t in polls.iter() {
+		{
+			let mut st = src.st.lock().unwrap();
+			st.best = t[1].parse().unwrap();
+			st.hint = t[2] == "1";
+		}
+		let r = block_on(client.poll_best_tip());
+		let n = src.st.lock().unwrap().n;
+		let logs: Vec<String> = leaves.iter().map(|r| r.take()).collect();
+		out.push(format!("P {} {} | {}", poll_rc(tree, r), n, logs.join(" | ")));
 	}
 }
 
